@@ -8,12 +8,12 @@ p = os.path.join(V, "sa", "mutants.py")
 s = open(p).read()
 i = s.index("SEED_DETECTION = {")
 lines = ["SEED_DETECTION = {"]
-def rnd(sid): k = int(sid.split("-")[1]); return 1 if k <= 3 else (2 if k <= 6 else 3)
+def rnd(sid): return (int(sid.split("-")[1]) - 1) // 3 + 1
 cur = None
 for sid, d in mx.items():
     if rnd(sid) != cur:
         cur = rnd(sid)
-for r in (1, 2, 3):
+for r in (1, 2, 3, 4, 5):
     lines.append(f"    # ---- round {r}")
     row = []
     for sid, d in mx.items():
